@@ -295,6 +295,9 @@ example : runModule pyIntOfStr conversions "convertToIntRange"
     [.py (.tokens []), ofOptInt (some 0), ofOptInt none, ofInv (.val (.int 7)), ofEmp (.val (.int 0))]
     = .error .typeError := by
   rfl
+-- (a failing `decide +kernel` explains itself with the elaborator's evaluator, which is very slow here: the small budget
+-- makes a broken example fail at once; the kernel check of a correct one does not consume it)
+set_option maxHeartbeats 2000 in
 example : runModule pyIntOfStr conversions "convertToIntRangeCapped"
     [.py (.str "70000".toList), ofOptInt (some 1), ofOptInt (some 1000), ofInv (.val (.int 1)), ofEmp .invalid]
     = .ok (.py (.int 1000)) := by
